@@ -12,6 +12,8 @@
   `w.run` is the model of `psutil.virtual_memory()` on the rendered TEXT of those files.
 -/
 import PsutilModel.Proofs.C08Refine
+import PsutilModel.Proofs.C08Text
+import PsutilModel.Proofs.C08Float
 import PsutilModel.Model.C08Gen
 namespace Psutil.C08
 open Spec
@@ -409,5 +411,407 @@ theorem swExample_wf : swExample.WF := by
 
 example : ∃ o, swExample.run = .ok o ∧ o.sin = 12288 ∧ o.sout = 36864 ∧ o.total = 1024000 := by
   refine ⟨_, C08_swap_refines swExample swExample_wf, ?_, ?_, ?_⟩ <;> decide
+
+
+/-! ## Extension round: the text layer on ARBITRARY bytes — which outcome, exactly when -/
+
+/-- per line of /proc/meminfo: IndexError exactly for fewer than two blank-separated fields;
+    ValueError exactly when there are two and the second is not an `int()` literal; the
+    statement completes exactly when the second field is a non-negative literal -/
+theorem C08_meminfo_line_outcomes (l : Bytes) :
+    (lineFail l = some .indexError ↔ (splitWs l).length < 2)
+    ∧ (lineFail l = some .valueError ↔
+        2 ≤ (splitWs l).length ∧ pyIntLit ((splitWs l).getD 1 []) = .invalid)
+    ∧ (lineFail l = none ↔
+        2 ≤ (splitWs l).length ∧ ∃ n, pyIntLit ((splitWs l).getD 1 []) = .nat n)
+    ∧ (∀ k, lineFail l ≠ some (.keyError k)) := by
+  unfold lineFail
+  by_cases h : (splitWs l).length < 2
+  · simp [h] <;> omega
+  · have h2 : 2 ≤ (splitWs l).length := by omega
+    simp only [h, if_false, h2, true_and]
+    cases pyIntLit ((splitWs l).getD 1 []) <;> simp
+
+/-- the parsing loop on arbitrary file content: it raises exactly the failure of the FIRST
+    failing line; it completes exactly when no line fails, and then `mems` holds, per key, the
+    last line's figure × 1024 -/
+theorem C08_parse_meminfo_outcomes (content : Bytes) :
+    (∀ e, parseMeminfo cfg.vmParse content = .error e ↔ meminfoFail content = some e)
+    ∧ ((∃ m, parseMeminfo cfg.vmParse content = .ok m) ↔ ∀ l ∈ linesOf content, lineFail l = none)
+    ∧ (∀ m, parseMeminfo cfg.vmParse content = .ok m → m = memsOf 1024 content) := by
+  rw [cfg_good.1, show kernelCfg.vmParse = ⟨0, 1, 1024⟩ from rfl]
+  obtain ⟨h1, h2⟩ := parseMeminfo_char 1024 content
+  rw [← meminfoFail_none_iff]
+  cases hm : meminfoFail content with
+  | some e0 =>
+    have := h1 e0 hm
+    refine ⟨fun e => ?_, ?_, fun m hmm => ?_⟩
+    · rw [this]; constructor
+      · intro h; cases h; rfl
+      · intro h; cases h; rfl
+    · rw [this]; simp
+    · rw [this] at hmm; cases hmm
+  | none =>
+    have := h2 hm
+    refine ⟨fun e => ?_, ?_, fun m hmm => ?_⟩
+    · rw [this]; simp
+    · rw [this]; simp
+    · rw [this] at hmm; cases hmm; rfl
+
+/-- `virtual_memory()` on ARBITRARY contents of /proc/meminfo and /proc/zoneinfo raises exactly
+    what `vmFail` says (first failing meminfo line; KeyError for a missing MemTotal, then MemFree;
+    first failing `low` line of zoneinfo when — and only when — the estimate reads it) … -/
+theorem C08_vm_fails_iff (ps : Nat) (mi : Bytes) (zi : Option Bytes) (e : Err) :
+    virtualMemory cfg ps mi zi = .error e ↔ vmFail mi zi = some e := by
+  rw [cfg_good.1]
+  obtain ⟨h1, h2⟩ := virtualMemory_char ps mi zi
+  constructor
+  · intro h
+    cases hv : vmFail mi zi with
+    | none => obtain ⟨o, ho⟩ := h2 hv; rw [ho] at h; cases h
+    | some e' => have := h1 e' hv; rw [this] at h; cases h; rfl
+  · exact h1 e
+
+/-- … and succeeds exactly otherwise: the exact converse of `C08_never_fails` -/
+theorem C08_vm_ok_iff (ps : Nat) (mi : Bytes) (zi : Option Bytes) :
+    (∃ o, virtualMemory cfg ps mi zi = .ok o) ↔ vmFail mi zi = none := by
+  rw [cfg_good.1]
+  obtain ⟨h1, h2⟩ := virtualMemory_char ps mi zi
+  constructor
+  · rintro ⟨o, ho⟩
+    cases hv : vmFail mi zi with
+    | none => rfl
+    | some e' => have := h1 e' hv; rw [this] at ho; cases ho
+  · exact h2
+
+/-- never any other exception class: whatever the bytes, the call returns, or raises IndexError,
+    ValueError, KeyError(b'MemTotal:') or KeyError(b'MemFree:') — or `int()` produced a negative
+    number, where the model explicitly stops (no claim) -/
+theorem C08_parse_total_outcomes (ps : Nat) (mi : Bytes) (zi : Option Bytes) :
+    (∃ o, virtualMemory cfg ps mi zi = .ok o)
+    ∨ virtualMemory cfg ps mi zi = .error .indexError
+    ∨ virtualMemory cfg ps mi zi = .error .valueError
+    ∨ virtualMemory cfg ps mi zi = .error (.keyError (key "MemTotal"))
+    ∨ virtualMemory cfg ps mi zi = .error (.keyError (key "MemFree"))
+    ∨ virtualMemory cfg ps mi zi = .error .negLiteral := by
+  cases hv : vmFail mi zi with
+  | none => exact Or.inl ((C08_vm_ok_iff ps mi zi).mpr hv)
+  | some e =>
+    have hrun := (C08_vm_fails_iff ps mi zi e).mpr hv
+    rw [hrun]
+    have hline : ∀ l, lineFail l = some e →
+        e = .indexError ∨ e = .valueError ∨ e = .negLiteral := by
+      intro l hl
+      unfold lineFail at hl
+      split at hl
+      · cases hl; simp
+      · split at hl <;> cases hl <;> simp
+    have hlow : ∀ l, lowFail l = some e →
+        e = .indexError ∨ e = .valueError ∨ e = .negLiteral := by
+      intro l hl
+      unfold lowFail at hl
+      simp only at hl
+      split at hl
+      · split at hl
+        · cases hl; simp
+        · split at hl <;> cases hl <;> simp
+      · cases hl
+    have hcls : e = .indexError ∨ e = .valueError ∨ e = .negLiteral
+        ∨ e = .keyError (key "MemTotal") ∨ e = .keyError (key "MemFree") := by
+      unfold vmFail at hv
+      cases hm : meminfoFail mi with
+      | some e0 =>
+        rw [hm] at hv
+        cases hv
+        obtain ⟨l, _, hl⟩ := head?_filterMap_mem lineFail _ _ hm
+        rcases hline l hl with h | h | h <;> simp [h]
+      | none =>
+        rw [hm] at hv
+        simp only at hv
+        split at hv
+        · cases hv; simp
+        · split at hv
+          · cases hv; simp
+          · split at hv
+            · cases zi with
+              | none => cases hv
+              | some z =>
+                obtain ⟨l, _, hl⟩ := head?_filterMap_mem lowFail _ _ hv
+                rcases hlow l hl with h | h | h <;> simp [h]
+            · cases hv
+    rcases hcls with h | h | h | h | h <;> subst h <;> simp
+
+/-- the exact converse of `C08_never_fails` on the kernel's own format: a rendered world runs
+    iff MemTotal and MemFree are listed; without them the call raises KeyError for the first
+    missing of the two -/
+theorem C08_never_fails_iff (w : World) (hw : w.WF) :
+    ((∃ o, w.run = .ok o) ↔
+      ((w.m.get (K "MemTotal")).isSome = true ∧ (w.m.get (K "MemFree")).isSome = true))
+    ∧ (w.m.get (K "MemTotal") = none → w.run = .error (.keyError (key "MemTotal")))
+    ∧ ((w.m.get (K "MemTotal")).isSome = true → w.m.get (K "MemFree") = none →
+        w.run = .error (.keyError (key "MemFree"))) := by
+  have hp : parseMeminfo kernelCfg.vmParse (renderMeminfo w.es)
+      = .ok ((w.es.map (kv 1024)).reverse) := parseMeminfo_render 1024 w.es hw.1
+  have hB := bridge_parsed w.es
+  have hT : w.m.get (K "MemTotal") = none → w.run = .error (.keyError (key "MemTotal")) := by
+    intro h
+    unfold World.run virtualMemory
+    rw [cfg_good.1, hp]
+    simp only
+    unfold vmCore
+    rw [show kernelCfg.kMemTotal = key "MemTotal" from rfl, hB "MemTotal"]
+    simp [MemInfo.bytes, show (MemInfo.ofEntries w.es).get (K "MemTotal") = none from h]
+  have hF : (w.m.get (K "MemTotal")).isSome = true → w.m.get (K "MemFree") = none →
+      w.run = .error (.keyError (key "MemFree")) := by
+    intro ht h
+    obtain ⟨t, ht'⟩ := Option.isSome_iff_exists.mp ht
+    unfold World.run virtualMemory
+    rw [cfg_good.1, hp]
+    simp only
+    unfold vmCore
+    rw [show kernelCfg.kMemTotal = key "MemTotal" from rfl,
+      show kernelCfg.kMemFree = key "MemFree" from rfl, hB "MemTotal", hB "MemFree"]
+    simp [MemInfo.bytes, show (MemInfo.ofEntries w.es).get (K "MemTotal") = some t from ht',
+      show (MemInfo.ofEntries w.es).get (K "MemFree") = none from h]
+  refine ⟨⟨fun ⟨o, ho⟩ => ?_, fun ⟨a, b⟩ => C08_never_fails w hw a b⟩, hT, hF⟩
+  cases h1 : w.m.get (K "MemTotal") with
+  | none => rw [hT h1] at ho; cases ho
+  | some t =>
+    cases h2 : w.m.get (K "MemFree") with
+    | none => rw [hF (by simp [h1]) h2] at ho; cases ho
+    | some f => simp
+
+/-! ### swap_memory(): outcomes, the unreadable /proc/vmstat, the prefix tests -/
+
+/-- swap_memory() on ARBITRARY bytes never raises KeyError (nor anything but IndexError /
+    ValueError): the two keys are optional, the sysinfo fallback takes over -/
+theorem C08_swap_total_outcomes (mi : Bytes) (sys : Sysinfo) (vs : Option Bytes) :
+    (∃ o, swapMemory cfg mi sys vs = .ok o)
+    ∨ swapMemory cfg mi sys vs = .error .indexError
+    ∨ swapMemory cfg mi sys vs = .error .valueError
+    ∨ swapMemory cfg mi sys vs = .error .negLiteral := by
+  have key : ∀ e, swapMemory cfg mi sys vs = .error e →
+      e = .indexError ∨ e = .valueError ∨ e = .negLiteral := by
+    intro e h
+    rw [cfg_good.1] at h
+    unfold swapMemory at h
+    obtain ⟨h1, h2⟩ := parseMeminfo_char 1024 mi
+    rw [show kernelCfg.swParse = ⟨0, 1, 1024⟩ from rfl] at h
+    cases hm : meminfoFail mi with
+    | some e0 =>
+      rw [h1 e0 hm] at h
+      cases h
+      obtain ⟨l, _, hl⟩ := head?_filterMap_mem lineFail _ _ hm
+      have := (C08_meminfo_line_outcomes l).2.2.2
+      unfold lineFail at hl
+      split at hl
+      · cases hl; simp
+      · split at hl <;> cases hl <;> simp
+    | none =>
+      rw [h2 hm] at h
+      simp only at h
+      unfold swapCore at h
+      simp only at h
+      cases vs with
+      | none => simp at h
+      | some v =>
+        simp only at h
+        split at h
+        · next e' he => cases h; exact vmstatLoop_err_range _ _ _ _ _ he
+        · cases h
+        · cases h
+  cases hr : swapMemory cfg mi sys vs with
+  | ok o => exact Or.inl ⟨o, rfl⟩
+  | error e => rcases key e hr with h | h | h <;> subst h <;> simp
+
+/-- a failing /proc/meminfo line fails swap_memory() the same way (it runs the same loop) -/
+theorem C08_swap_fails_on_meminfo (mi : Bytes) (sys : Sysinfo) (vs : Option Bytes) (e : Err)
+    (h : meminfoFail mi = some e) : swapMemory cfg mi sys vs = .error e := by
+  rw [cfg_good.1]
+  unfold swapMemory
+  rw [show kernelCfg.swParse = ⟨0, 1, 1024⟩ from rfl, (parseMeminfo_char 1024 mi).1 e h]
+
+/-- /proc/vmstat missing or unreadable (`except OSError`): for ANY parseable /proc/meminfo the
+    call succeeds, sin = sout = 0 and the RuntimeWarning is issued -/
+theorem C08_swap_vmstat_unreadable (mi : Bytes) (sys : Sysinfo) (h : meminfoFail mi = none) :
+    ∃ o, swapMemory cfg mi sys none = .ok o ∧ o.sin = 0 ∧ o.sout = 0 ∧ o.warned = true := by
+  rw [cfg_good.1]
+  unfold swapMemory
+  rw [show kernelCfg.swParse = ⟨0, 1, 1024⟩ from rfl, (parseMeminfo_char 1024 mi).2 h]
+  simp [swapCore]
+
+/-- the loop, case "pswpout completes the pair": the lines before it hold no `pswpout…` line and
+    at least one `pswpin…` line; then sin is the LAST `pswpin…`-prefixed line's value (a later
+    match overwrites an earlier one), sout this line's, and nothing after it is read -/
+theorem C08_vmstat_break_on_out (pre post : List Bytes) (l : Bytes)
+    (hno : ∀ x ∈ pre, isOut x = false) (hex : ∃ x ∈ pre, isIn x = true)
+    (hgood : ∀ x ∈ pre, isIn x = true → ∃ v, swapField x = .ok v)
+    (hl : isOut l = true) (v : Nat) (hv : swapField l = .ok v) :
+    ∃ a, lastVal isIn pre none = some a ∧
+      vmstatLoop cfg (pre ++ l :: post) none none = .ok (some (a, v)) := by
+  rw [cfg_good.1]
+  obtain ⟨a, ha⟩ := lastVal_isSome isIn pre hex hgood
+  refine ⟨a, ha, ?_⟩
+  have hi : isIn l = false := by
+    cases h : isIn l with
+    | false => rfl
+    | true => rw [isIn_isOut l h] at hl; cases hl
+  rw [loop_skip_noOut pre _ none hno hgood, ha, loop_step_out l post (some a) none hi hl, hv]
+
+/-- … case "pswpin completes the pair" -/
+theorem C08_vmstat_break_on_in (pre post : List Bytes) (l : Bytes)
+    (hno : ∀ x ∈ pre, isIn x = false) (hex : ∃ x ∈ pre, isOut x = true)
+    (hgood : ∀ x ∈ pre, isOut x = true → ∃ v, swapField x = .ok v)
+    (hl : isIn l = true) (v : Nat) (hv : swapField l = .ok v) :
+    ∃ b, lastVal isOut pre none = some b ∧
+      vmstatLoop cfg (pre ++ l :: post) none none = .ok (some (v, b)) := by
+  rw [cfg_good.1]
+  obtain ⟨b, hb⟩ := lastVal_isSome isOut pre hex hgood
+  refine ⟨b, hb, ?_⟩
+  rw [loop_skip_noIn pre _ none hno hgood, hb, loop_step_in l post none (some b) hl, hv]
+
+/-- … case "no pair": one of the two prefixes never occurs (the matching lines being readable):
+    the `for … else` branch — both counters 0 with the warning -/
+theorem C08_vmstat_no_pair (ls : List Bytes)
+    (h : (∀ x ∈ ls, isOut x = false) ∧ (∀ x ∈ ls, isIn x = true → ∃ v, swapField x = .ok v)
+       ∨ (∀ x ∈ ls, isIn x = false) ∧ (∀ x ∈ ls, isOut x = true → ∃ v, swapField x = .ok v)) :
+    vmstatLoop cfg ls none none = .ok none := by
+  rw [cfg_good.1]
+  rcases h with ⟨h1, h2⟩ | ⟨h1, h2⟩
+  · have := loop_skip_noOut ls [] none h1 h2
+    simpa [vmstatLoop] using this
+  · have := loop_skip_noIn ls [] none h1 h2
+    simpa [vmstatLoop] using this
+
+/-- … case "error": a matching line whose `split(b' ')[1]` is missing / not an int raises, when
+    it is reached before the pair is complete -/
+theorem C08_vmstat_error (pre post : List Bytes) (l : Bytes) (e : Err)
+    (hpre : (∀ x ∈ pre, isOut x = false) ∧ (∀ x ∈ pre, isIn x = true → ∃ v, swapField x = .ok v)
+          ∨ (∀ x ∈ pre, isIn x = false) ∧ (∀ x ∈ pre, isOut x = true → ∃ v, swapField x = .ok v))
+    (hl : isIn l = true ∨ isOut l = true) (he : swapField l = .error e) :
+    vmstatLoop cfg (pre ++ l :: post) none none = .error e := by
+  rw [cfg_good.1]
+  have step : ∀ s t, vmstatLoop kernelCfg (l :: post) s t = .error e := by
+    intro s t
+    rcases hl with hl | hl
+    · rw [loop_step_in l post s t hl, he]
+    · have hi : isIn l = false := by
+        cases h : isIn l with
+        | false => rfl
+        | true => rw [isIn_isOut l h] at hl; cases hl
+      rw [loop_step_out l post s t hi hl, he]
+  rcases hpre with ⟨h1, h2⟩ | ⟨h1, h2⟩
+  · rw [loop_skip_noOut pre _ none h1 h2]; exact step _ _
+  · rw [loop_skip_noIn pre _ none h1 h2]; exact step _ _
+
+/-- full-strength reading without the no-clash hypothesis: "sin is the pswpin counter whatever
+    other names /proc/vmstat lists" -/
+def C08_swap_sin_is_pswpin_Full : Prop :=
+  ∀ (vs : List VLine) (i : Nat), (∀ l ∈ vs, l.name ≠ [] ∧ NoWs l.name) →
+    vmstatGet vs (K "pswpin") = some i → (vmstatGet vs (K "pswpout")).isSome = true →
+    ∃ b, vmstatLoop cfg (linesOf (renderVmstat vs)) none none = .ok (some (i * 4096, b))
+
+def vClash : List VLine := [⟨K "pswpin", 5⟩, ⟨K "pswpin_x", 9⟩, ⟨K "pswpout", 3⟩]
+
+/-- it needs the hypothesis (`VWF.noClash`): `startswith` is a prefix test, so a counter named
+    `pswpin_x` listed between pswpin and pswpout is read INSTEAD (last match before the break):
+    sin = 9 × 4096, not 5 × 4096. No kernel up to 6.18 lists such a name (checked on the live
+    /proc/vmstat on every run); replayed on the real code (corpus:swap_prefix_clash) -/
+theorem C08_swap_prefix_clash_reads_other_counter :
+    vmstatLoop cfg (linesOf (renderVmstat vClash)) none none = .ok (some (9 * 4096, 3 * 4096))
+    ∧ ¬ C08_swap_sin_is_pswpin_Full := by
+  have h : vmstatLoop cfg (linesOf (renderVmstat vClash)) none none
+      = .ok (some (9 * 4096, 3 * 4096)) := by
+    have hr : renderVmstat vClash = K "pswpin 5\npswpin_x 9\npswpout 3\n" := by
+      have d : ∀ n, n < 10 → renderDec n = [48 + n] := by
+        intro n hn
+        unfold renderDec renderRadix
+        rw [renderRadixAux]
+        simp [decimal, hn]
+      simp only [renderVmstat, vClash, renderVLine, List.map_cons, List.map_nil, d 5 (by decide),
+        d 9 (by decide), d 3 (by decide)]
+      decide
+    rw [cfg_good.1, hr]; decide
+  refine ⟨h, fun hf => ?_⟩
+  obtain ⟨b, hb⟩ := hf vClash 5 (by
+    intro l hl
+    simp only [vClash, List.mem_cons, List.not_mem_nil, or_false] at hl
+    rcases hl with rfl | rfl | rfl <;> exact ⟨by decide, by unfold NoWs; decide⟩) (by decide) (by decide)
+  rw [h] at hb
+  simp at hb
+
+/-! ### the native record behind the fallback (arch/linux/mem.c) -/
+
+/-- what the Python keeps of `cext.linux_sysinfo()` is (totalswap, freeswap, mem_unit) of
+    `struct sysinfo`, whatever the other members hold -/
+theorem C08_sysinfo_native (s : SysinfoC) :
+    sysView cfg (s.tuple cfg.sysCOrder) = some ⟨s.totalswap, s.freeswap, s.mem_unit⟩ := by
+  rw [cfg_good.1]; rfl
+
+/-- … so the fallback reports bytes: the kernel's counts × `mem_unit` -/
+theorem C08_swap_sysinfo_bytes (w : SwapWorld) (hw : w.WF) (o : SwapOut) (hrun : w.run = .ok o)
+    (s : SysinfoC) (hs : sysView cfg (s.tuple cfg.sysCOrder) = some w.sys)
+    (h : w.m.bytes "SwapTotal" = none ∨ w.m.bytes "SwapFree" = none) :
+    o.total = s.totalswap * s.mem_unit ∧ o.free = s.freeswap * s.mem_unit := by
+  rw [C08_sysinfo_native] at hs
+  have := C08_swap_sysinfo_fallback w hw o hrun h
+  rw [← Option.some.inj hs] at this
+  exact ⟨this.1, this.2.1⟩
+
+/-! ### floats: `percent` computed in doubles against the exactly rounded value -/
+
+/-- let `x` be what `float(used) / total * 100` evaluates to, within ε of the exact quotient
+    (ε < 1/20), and `r'` be `x` rounded to one decimal: then `r'` and the model's percent differ
+    by at most 0.1, and differ at all only when the exact value is within ε of a rounding
+    boundary (an odd multiple of 1/20) -/
+theorem C08_percent_float_stable (w : World) (hw : w.WF) (total free : Nat)
+    (ht : w.m.bytes "MemTotal" = some total) (hf : w.m.bytes "MemFree" = some free)
+    (o : VmOut) (hrun : w.run = .ok o) (x r' ε : ℚ) (hx : IsRound1 x r')
+    (h1 : x - percentExact o.total o.avail ≤ ε) (h2 : percentExact o.total o.avail - x ≤ ε)
+    (hs : ε < 1 / 20) :
+    (r' - (o.percent : ℚ) / 10 ≤ 1 / 10 ∧ (o.percent : ℚ) / 10 - r' ≤ 1 / 10)
+    ∧ (r' ≠ (o.percent : ℚ) / 10 → ∃ k : ℤ,
+        percentExact o.total o.avail - (2 * (k : ℚ) + 1) / 20 ≤ ε
+        ∧ (2 * (k : ℚ) + 1) / 20 - percentExact o.total o.avail ≤ ε) :=
+  round1_stable _ x _ r' ε (C08_percent w hw total free ht hf o hrun) hx h1 h2 hs
+
+theorem C08_swap_percent_float_stable (w : SwapWorld) (hw : w.WF) (o : SwapOut)
+    (hrun : w.run = .ok o) (x r' ε : ℚ) (hx : IsRound1 x r')
+    (h1 : x - swapPercentExact o.total o.used ≤ ε) (h2 : swapPercentExact o.total o.used - x ≤ ε)
+    (hs : ε < 1 / 20) :
+    (r' - (o.percent : ℚ) / 10 ≤ 1 / 10 ∧ (o.percent : ℚ) / 10 - r' ≤ 1 / 10)
+    ∧ (r' ≠ (o.percent : ℚ) / 10 → ∃ k : ℤ,
+        swapPercentExact o.total o.used - (2 * (k : ℚ) + 1) / 20 ≤ ε
+        ∧ (2 * (k : ℚ) + 1) / 20 - swapPercentExact o.total o.used ≤ ε) :=
+  round1_stable _ x _ r' ε (C08_swap_percent w hw o hrun) hx h1 h2 hs
+
+/-! ### psutil/__init__.py: virtual_memory() primes `_TOTAL_PHYMEM` (used by memory_percent) -/
+
+/-- a successful call stores the record's `total` in `_TOTAL_PHYMEM`, whatever was there; a call
+    that raises leaves it alone -/
+theorem C08_vm_sets_total_phymem (w : World) (hw : w.WF) (total free : Nat)
+    (ht : w.m.bytes "MemTotal" = some total) (hf : w.m.bytes "MemFree" = some free)
+    (st : Option Int) :
+    (frontVm cfg st w.run).1 = some (total : Int)
+    ∧ (∀ e, (frontVm cfg st (.error e)).1 = st) := by
+  obtain ⟨o, ho⟩ := C08_never_fails w hw (by simpa [MemInfo.bytes] using congrArg Option.isSome ht)
+    (by simpa [MemInfo.bytes] using congrArg Option.isSome hf)
+  have hto := (C08_fields_exact w hw total free ht hf o ho).1
+  rw [ho, cfg_good.1]
+  refine ⟨?_, fun e => rfl⟩
+  simp [frontVm, kernelCfg, VmOut.var, hto]
+
+/-- `Process.memory_percent()` divides by the primed figure as long as it is truthy — even when
+    /proc/meminfo has changed since (`fresh` is what a new call would return) — and calls
+    virtual_memory() again (priming the cache anew) when it is `None` or 0 -/
+theorem C08_memory_percent_uses_primed_total (t : Int) (fresh : Except Err VmOut) :
+    (t ≠ 0 → memPercentTotal cfg (some t) fresh = (some t, some t))
+    ∧ (∀ o, fresh = .ok o → memPercentTotal cfg none fresh = (some (o.total : Int), some (o.total : Int))
+        ∧ memPercentTotal cfg (some 0) fresh = (some (o.total : Int), some (o.total : Int))) := by
+  rw [cfg_good.1]
+  refine ⟨fun h => ?_, fun o ho => ?_⟩
+  · simp [memPercentTotal, kernelCfg, h]
+  · subst ho
+    simp [memPercentTotal, frontVm, kernelCfg, VmOut.var]
 
 end Psutil.C08
